@@ -34,6 +34,8 @@ type C08Case struct {
 	Seq      uint64 `json:"seq"`
 	Digest   int    `json:"digest"`
 	Staged   int    `json:"staged"`    // number of log results staged
+	PDPad    []int  `json:"pd_pad,omitempty"` // extra perform-data bytes per staged result (tuned: see tuneExact)
+	Exact    bool   `json:"exact,omitempty"`  // tune the case until the observation is exactly the maximum length
 	PDMode   int    `json:"pd_mode"`   // 0: mixed sizes {0,1,9999,10000}; 1: all 10000; 2: all small; 3: all 9999
 	InFlight int    `json:"in_flight"` // number of staged results with an accepted report
 	EarlyTwice int  `json:"early_twice,omitempty"` // number of logs whose report was accepted 21 min before they are checked and accepted again on a higher block 6 min before (lockout 20 min: still in flight)
@@ -77,14 +79,59 @@ func pdFor(c *C08Case, i int) []byte {
 		n = 6500 + (i*37)%1400 // 6.5 - 7.9 KB: about a hundred of them are just over the byte limit once base64-encoded
 	case 5:
 		n = 7000 + i%3
+	case 6:
+		n = 9000
 	default:
 		n = []int{0, 1, 9999, 10000, 32, 500}[i%6]
+	}
+	if i < len(c.PDPad) {
+		n += c.PDPad[i]
 	}
 	b := make([]byte, n)
 	for j := range b {
 		b[j] = byte(i + j)
 	}
 	return b
+}
+
+// tuneExact searches the number of staged results, the history length and the perform-data sizes (all below
+// 10,000 bytes) for which node a's observation is exactly the advertised maximum: three more bytes of perform data
+// are four more base64 characters, and the remainder mod 4 is found by trying neighbouring counts.  A length the
+// producer may emit (it cuts only above the maximum) is a length every peer has to accept.
+func tuneExact(t *testing.T, c *C08Case) bool {
+	const limit = 1_000_000
+	for hist := c.HistLen; hist < c.HistLen+12; hist++ {
+		for n := c.Staged; n > c.Staged-10 && n > 0; n-- {
+			try := *c
+			try.Staged, try.HistLen, try.PDPad = n, hist, nil
+			synctest.Test(t, func(t *testing.T) { runC08(t, &try) })
+			delta := limit - try.Len
+			if try.Err != "" || delta < 0 || delta%4 != 0 {
+				continue
+			}
+			q := delta / 4
+			pad := make([]int, n)
+			for i := 0; q > 0 && i < n; i++ {
+				step := q
+				if step > 300 {
+					step = 300
+				}
+				pad[i] = 3 * step
+				q -= step
+			}
+			if q > 0 {
+				continue
+			}
+			try.PDPad = pad
+			try.Perf, try.Err = nil, ""
+			synctest.Test(t, func(t *testing.T) { runC08(t, &try) })
+			if try.Err == "" && try.Len == limit {
+				c.Staged, c.HistLen, c.PDPad = n, hist, pad
+				return true
+			}
+		}
+	}
+	return false
 }
 
 func logPayload(i int, blk uint64) common.UpkeepPayload {
@@ -565,6 +612,7 @@ func boundary() []C08Case {
 	add(C08Case{Family: "all-9999-over-byte-limit", Seq: 29, Digest: 1, Staged: 100, PDMode: 3, HistLen: 256})
 	add(C08Case{Family: "hundred-mid-size-results-just-over-the-byte-limit", Seq: 31, Digest: 1, Staged: 100, PDMode: 4, HistLen: 256})
 	add(C08Case{Family: "hundred-mid-size-results-just-over-the-byte-limit", Seq: 32, Digest: 2, Staged: 140, PDMode: 5, HistLen: 30, LogProps: 3, CondUpk: 4})
+	add(C08Case{Family: "observation-of-exactly-the-maximum-length", Seq: 36, Digest: 1, Staged: 79, PDMode: 6, HistLen: 2, Exact: true})
 	add(C08Case{Family: "empty-history-after-a-non-empty-one", Seq: 33, Digest: 1, Staged: 5, PDMode: 2, HistLen: 0, Rollback: true})
 	add(C08Case{Family: "two-log-and-nine-conditional-proposals", Seq: 34, Digest: 1, Staged: 3, LogProps: 2, CondUpk: 9, HistLen: 3})
 	add(C08Case{Family: "two-log-and-nine-conditional-proposals", Seq: 35, Digest: 2, Staged: 0, LogProps: 0, CondUpk: 11, HistLen: 3})
@@ -651,6 +699,9 @@ func runAll(t *testing.T, prop, base string, results [][2]string) {
 	var kept []C08Case
 	for i := range cases {
 		c := &cases[i]
+		if c.Exact && c.PDPad == nil && !tuneExact(t, c) {
+			c.Family += "-not-reached"
+		}
 		c.Perf, c.Err = nil, ""
 		synctest.Test(t, func(t *testing.T) { runC08(t, c) })
 		if c.Err != "" {
